@@ -126,6 +126,12 @@ pub fn wrong_typed(f: Fmt, type_name: &str) -> Vec<Vec<u8>> {
                 v.push(format!("{t}({inner})"));
                 v.push(format!("{t} ( {inner} )"));
             }
+            for ext in ["unwrap_newtypes", "implicit_some", "unwrap_variant_newtypes"] {
+                for inner in ["5", "(5)", "\"ab\"", "0.5", "NaN", "[1,2]", "(x:1,y:2)", "300", "-1"] {
+                    v.push(format!("#![enable({ext})]\n{inner}"));
+                    v.push(format!("#![enable({ext})] {t}({inner})"));
+                }
+            }
             v.push(format!("{t}({t}(5))"));
             v.push(format!("Other(5)"));
             v.push(format!("{t}"));
